@@ -167,3 +167,79 @@ def make_task(tm, uid, **kwargs):
     tm._known_uids.add(uid)
     tm._tasks[uid] = task
     return task
+
+
+# ------------------------------------------------------------------------------
+#
+class _StubSub(object):
+    def stop(self):
+        pass
+
+
+def make_pmgr(session=None, uid='pmgr.0000'):
+
+    pm = rp.PilotManager.__new__(rp.PilotManager)
+
+    pm._uid         = uid
+    pm._session     = session or StubSession()
+    pm._log         = NullLog()
+    pm._prof        = NullProf()
+    pm._rep         = NullRep()
+    pm._cfg         = ru.Config(from_dict={'uid': uid})
+    pm._uids        = list()
+    pm._pilots      = dict()
+    pm._pilots_lock = mt.RLock()
+    pm._callbacks   = {m: dict() for m in rpc.PMGR_METRICS}
+    pm._pcb_lock    = mt.RLock()
+    pm._terminate   = mt.Event()
+    pm._closed      = False
+
+    pm._outputs     = dict()
+    pm._inputs      = dict()
+    pm._workers     = dict()
+    pm._publishers  = {rpc.STATE_PUBSUB  : RecPublisher(rpc.STATE_PUBSUB),
+                       rpc.CONTROL_PUBSUB: RecPublisher(rpc.CONTROL_PUBSUB)}
+    pm._cancel_list = list()
+    pm._cancel_lock = mt.RLock()
+    pm._cb_lock     = mt.RLock()
+
+    return pm
+
+
+def make_pilot(pm, uid, resource='local.localhost'):
+    '''real Pilot facade registered with the pmgr facade'''
+
+    p = rp.Pilot.__new__(rp.Pilot)
+
+    p._descr      = {'uid': uid, 'resource': resource, 'runtime': 10,
+                     'cores': 4, 'gpus': 0, 'nodes': 1,
+                     'exit_on_error': False}
+    p._pmgr       = pm
+    p._session    = pm._session
+    p._prof       = NullProf()
+    p._uid        = uid
+    p._state      = rps.NEW
+    p._log        = pm._log
+    p._sub        = _StubSub()
+    p._pilot_dict = dict()
+    p._callbacks  = {m: dict() for m in rpc.PMGR_METRICS}
+    p._cb_lock    = ru.RLock()
+    p._tmgr       = None
+    p._nodelist   = None
+    p._exit_on_error = False
+    p._callbacks[rpc.PILOT_STATE][p._default_state_cb.__name__] = {
+            'cb': p._default_state_cb, 'cb_data': None}
+
+    base = 'file://localhost/tmp/rpverif/%s' % uid
+    p._pilot_jsurl      = ru.Url('fork://localhost/')
+    p._pilot_jshop      = ru.Url()
+    p._endpoint_fs      = ru.Url('file://localhost/')
+    p._resource_sandbox = ru.Url('file://localhost/tmp/rpverif')
+    p._session_sandbox  = ru.Url('file://localhost/tmp/rpverif/sess')
+    p._pilot_sandbox    = ru.Url(base)
+    p._client_sandbox   = ru.Url('file://localhost/tmp/rpverif/client')
+    p._rpc_reqs         = dict()
+
+    pm._uids.append(uid)
+    pm._pilots[uid] = p
+    return p
